@@ -600,9 +600,13 @@ func vsrvC16SlowReaderBurst(r *verifrt.R, c *verifrt.Case) {
 		k = 1 + rng.IntN(2000)
 	}
 	pre := rng.IntN(4) // PINGs before the burst: their 17-octet ACKs shift the alignment
+	// one time in three the connection is in graceful shutdown (the client's GOAWAY(NO_ERROR), a
+	// request still running) when the flood arrives: the bound on queued control frames applies
+	// all the same, nothing else would ever end such a connection
+	graceful := rng.IntN(3) == 0
 	// what the write buffer (4 KiB) and the pipe can still absorb is written, not queued
 	flood := maxQueuedControlFrames + (4096+d.Cap)/17 + 100 + rng.IntN(50)
-	d.Notes = append(d.Notes, fmt.Sprintf("pipe capacity %d, %d PING then %d SETTINGS in the burst, then %d PING", d.Cap, pre, k, flood))
+	d.Notes = append(d.Notes, fmt.Sprintf("pipe capacity %d, %d PING then %d SETTINGS in the burst, then %d PING; graceful shutdown first: %v", d.Cap, pre, k, flood, graceful))
 	c.Describe(d)
 	var s *vsrvSession
 	ended, serveAlive := false, false
@@ -615,6 +619,14 @@ func vsrvC16SlowReaderBurst(r *verifrt.R, c *verifrt.Case) {
 		stuck := s.blockedWriters > 0
 		s.mu.Unlock()
 		var burst []byte
+		if graceful {
+			// stream 7: its handler waits for the end of the stream (vsrvC16Handler)
+			burst = h2ref.AppendHeaders(burst, 7, true, true, vsrvEncodeFields(vsrvGetFields("/held")), nil, -1)
+			burst = h2ref.AppendGoAway(burst, 0, h2ref.ErrNo, nil)
+			s.mu.Lock()
+			s.ev["slow_reader_bursts_in_graceful_shutdown"]++
+			s.mu.Unlock()
+		}
 		for i := 0; i < pre; i++ {
 			burst = h2ref.AppendPing(burst, false, [8]byte{1, byte(i)})
 		}
